@@ -442,6 +442,174 @@ theorem C15_axes_increasing :
     have h2 := (C15_monitor_meaning _ _).mp this.2
     exact ⟨h1.1, h1.2.1, h2.1, h2.2.1⟩
 
+/-! ### the model is the traced plan composed with the library contracts
+
+The `…Plan` functions are proved equal, on every run and for all rational inputs, to the decision
+trees traced from the real `load_clip`, `load_recording`, `create_time_range`, `create_range_dim`,
+`resample` and `compute_spectrogram` (Tie 1b).  The theorems below say that the model the property
+theorems are about is exactly: plan, then the library's part (soundfile's zero-filled read, numpy's
+`arange` lattice, xarray's length check, scipy's `resample` / `stft` coordinate formulas). -/
+
+/-- `create_range_dim` yields the lattice its traced plan describes -/
+theorem C15_range_factors (start stop step : Rat) :
+    rangeDim start stop step =
+      lattice (rangePlan start stop step).start (rangePlan start stop step).step (rangePlan start stop step).count ∧
+    (rangePlan start stop step).adv = step := by
+  exact ⟨rangeDim_eq_count start stop step, rfl⟩
+
+theorem C15_clip_factors (file : List Frame) (ch sr : Nat) (s e : Rat) :
+    loadClip file ch sr s e =
+      if e < s then .error .clip else if sr = 0 then .error .clip
+      else loadClipOfPlan file ch (clipPlan sr s e) := by
+  unfold loadClip loadClipOfPlan clipPlan timeRangePlan rangePlan clipOffset clipCount
+  simp only [rangeDim_eq_count]
+
+theorem C15_recording_factors (file : List Frame) (sr : Nat) (d : Rat) :
+    loadRecording file sr d =
+      if sr = 0 then .error .clip else loadRecordingOfPlan file (recordingPlan sr d) := by
+  unfold loadRecording loadRecordingOfPlan recordingPlan timeRangePlan rangePlan
+  simp only [rangeDim_eq_count]
+
+theorem C15_resample_factors (n : Nat) (t0 t1 step : Rat) (target : Nat) :
+    resampleAxis n t0 t1 step target = resampleOfPlan n t0 t1 (resamplePlan n step target) := by
+  unfold resampleAxis resampleOfPlan resamplePlan
+  rfl
+
+theorem C15_stft_factors (len : Nat) (t0 step w h : Rat) :
+    stftAxes len t0 step w h = stftOfPlan len (stftPlan step w h t0) := by
+  unfold stftAxes stftAxesGen stftOfPlan stftPlan stftNperseg stftNoverlap stftTimes stftFreqs
+  simp only [Bool.false_eq_true, if_false]
+  by_cases h1 : len = 0
+  · simp only [h1, if_true]
+  by_cases h2 : truncZ (w * (1 / step)) < 1
+  · simp only [h1, h2, if_true, if_false]
+  by_cases h3 : truncZ ((w - h) * (1 / step)) ≥ min (truncZ (w * (1 / step))) (len : Int)
+  · simp only [h1, h2, h3, if_true, if_false]
+  simp only [h1, h2, h3, if_false]
+  congr 3
+  · apply List.map_congr_left
+    intro k _
+    ring
+  · push_cast; ring
+
+/-! ### channels -/
+
+/-- every frame of a clip has the file's channel count (also the zero frames past its end) -/
+theorem C15_clip_channels (file : List Frame) (ch sr : Nat) (s e : Rat) (a : TimeArray)
+    (h : loadClip file ch sr s e = .ok a) (hfile : ∀ f ∈ file, f.length = ch) :
+    ∀ f ∈ a.frames, f.length = ch := by
+  obtain ⟨_, _, _, _, rfl⟩ := loadClip_ok file ch sr s e a h
+  intro f hf
+  simp only [readFrames, List.mem_map, List.mem_range] at hf
+  obtain ⟨i, _, rfl⟩ := hf
+  by_cases hi : (clipOffset sr s).toNat + i < file.length
+  · simp only [List.getD, List.getElem?_eq_getElem hi, Option.getD_some]
+    exact hfile _ (List.getElem_mem hi)
+  · simp [List.getD, List.getElem?_eq_none (Nat.le_of_not_lt hi), zeroFrame]
+
+/-! ### resample without the assumption that the input axis is truthful -/
+
+/-- exact drift of resampled coordinate `k` from `first + k/target`, for an input axis of any
+    spacing `t1 − t0` (a resampled array's own spacing is *not* its advertised step):
+    `k·(n·target·(t1 − t0) − num)/(num·target)` -/
+theorem C15_resample_drift (n : Nat) (t0 t1 step : Rat) (target : Nat) (a : Axis)
+    (h : resampleAxis n t0 t1 step target = .ok a) (k : Nat) (hk : k < a.coords.length) :
+    a.coords[k] - (t0 + (k : Rat) / (target : Rat)) =
+      (k : Rat) * ((n : Rat) * (target : Rat) * (t1 - t0) - (a.coords.length : Rat)) /
+        ((a.coords.length : Rat) * (target : Rat)) ∧
+    0 < target := by
+  obtain ⟨_, hnum, rfl⟩ := resampleAxis_ok n t0 t1 step target a h
+  have htpos : 0 < target := by
+    rcases Nat.eq_zero_or_pos target with h0 | h0
+    · exfalso
+      rw [h0] at hnum
+      have : truncZ ((n : Rat) * (((0 : Nat) : Rat) * step)) = 0 := by
+        rw [show (n : Rat) * (((0 : Nat) : Rat) * step) = ((0 : Int) : Rat) by simp]
+        rw [truncZ_of_nonneg _ (by simp), Rat.floor_intCast]
+      omega
+    · exact h0
+  refine ⟨?_, htpos⟩
+  simp only [List.length_map, List.length_range, List.getElem_map, List.getElem_range]
+  rw [toNat_cast_of_nonneg _ hnum.le]
+  have hnumQ : (0 : Rat) < (truncZ ((n : Rat) * ((target : Rat) * step)) : Rat) := by exact_mod_cast hnum
+  have htQ : (0 : Rat) < (target : Rat) := by exact_mod_cast htpos
+  generalize (truncZ ((n : Rat) * ((target : Rat) * step)) : Rat) = N at hnumQ ⊢
+  have hN : N ≠ 0 := ne_of_gt hnumQ
+  have hT : (target : Rat) ≠ 0 := ne_of_gt htQ
+  field_simp
+  ring
+
+/-- … hence coordinate `k` lies within one advertised step of `first + k/target` **iff**
+    `k·|n·target·(t1 − t0) − num| < num` -/
+theorem C15_resample_within_one_step_iff (n : Nat) (t0 t1 step : Rat) (target : Nat) (a : Axis)
+    (h : resampleAxis n t0 t1 step target = .ok a) (k : Nat) (hk : k < a.coords.length) :
+    |a.coords[k] - (t0 + (k : Rat) / (target : Rat))| < 1 / (target : Rat) ↔
+      (k : Rat) * |(n : Rat) * (target : Rat) * (t1 - t0) - (a.coords.length : Rat)| < (a.coords.length : Rat) := by
+  obtain ⟨hd, htpos⟩ := C15_resample_drift n t0 t1 step target a h k hk
+  rw [hd]
+  have htQ : (0 : Rat) < (target : Rat) := by exact_mod_cast htpos
+  have hlen : (0 : Rat) < (a.coords.length : Rat) := by exact_mod_cast (by omega : 0 < a.coords.length)
+  have hk0 : (0 : Rat) ≤ (k : Rat) := by positivity
+  have hLT := mul_pos hlen htQ
+  generalize (n : Rat) * (target : Rat) * (t1 - t0) - (a.coords.length : Rat) = y
+  generalize (a.coords.length : Rat) = L at hlen hLT ⊢
+  generalize (k : Rat) = K at hk0 ⊢
+  generalize (target : Rat) = T at htQ hLT ⊢
+  rcases le_total 0 y with hy | hy
+  · rw [abs_of_nonneg hy, abs_of_nonneg (div_nonneg (mul_nonneg hk0 hy) hLT.le), div_lt_div_iff₀ hLT htQ]
+    constructor <;> intro hh <;> nlinarith
+  · have he : K * y / (L * T) ≤ 0 := div_nonpos_of_nonpos_of_nonneg (mul_nonpos_of_nonneg_of_nonpos hk0 hy) hLT.le
+    rw [abs_of_nonpos hy, abs_of_nonpos he, ← neg_div, div_lt_div_iff₀ hLT htQ]
+    constructor <;> intro hh <;> nlinarith
+
+/-- resampling a *resampled* array (known finding C15-2): 100 samples at 8192 Hz to 1355 Hz gives 16
+    points spaced 25/32768 s but advertising 1/1355 s; resampling those to 13550 Hz gives 160 points
+    spaced 1/13107.2 s and advertising 1/13550 s, the last one 5.37 advertised steps from
+    `first + k·step`: the monitored statement `axisOk` is false -/
+theorem C15_resample_chain_untruthful :
+    (resampleAxis 100 0 (1 / 8192) (1 / 8192) 1355).toOption.map
+        (fun a => (a.coords.length, a.coords[1]?, a.step, axisOk 0 a)) =
+      some (16, some (25 / 32768), 1 / 1355, true) ∧
+    (resampleAxis 16 0 (25 / 32768) (1 / 1355) 13550).toOption.map
+        (fun a => (a.coords.length, a.coords[1]?, a.step, axisOk 0 a)) =
+      some (160, some (5 / 65536), 1 / 13550, false) := by
+  constructor <;> decide +kernel
+
+/-! ### a window longer than the audio -/
+
+/-- for a window longer than the audio scipy shrinks `nperseg` to the input length: the
+    coordinates are `k·fs/len` and `t0 + k·(len − noverlap)/fs`, whatever the code advertises -/
+theorem C15_stft_long_window (len : Nat) (t0 step w h : Rat) (a : SpecAxes)
+    (hok : stftAxes len t0 step w h = .ok a) (hlong : (len : Int) < a.nperseg) :
+    (∀ k (hk : k < a.freq.coords.length), a.freq.coords[k] = (k : Rat) * (1 / step / (len : Rat))) ∧
+    (∀ k (hk : k < a.time.coords.length),
+        a.time.coords[k] = t0 + (k : Rat) * ((((len : Int) - a.noverlap : Int) : Rat) * step)) ∧
+    a.freq.step = 1 / step / (a.nperseg : Rat) ∧
+    a.time.step = ((a.nperseg - a.noverlap : Int) : Rat) * step := by
+  obtain ⟨_, _, _, rfl⟩ := stftAxesGen_ok false len t0 step w h a hok
+  simp only at hlong
+  have hmin : min (stftNperseg step w) (len : Int) = (len : Int) := min_eq_right hlong.le
+  simp only [hmin, Bool.false_eq_true, if_false]
+  refine ⟨fun k hk => ?_, fun k hk => ?_, ?_, ?_⟩
+  · rw [stftFreqs_getElem]; push_cast; rfl
+  · rw [stftTimes_getElem]
+  · first | rfl | trivial
+  · field_simp
+
+/-- (known finding C15-3) 50 samples at 8192 Hz, window of 64 and hop of 32 samples: scipy uses a
+    window of 50 samples, the frequency bins are 163.84 Hz apart but advertise 128 Hz (bin 25 is 7
+    advertised steps off), the segments are 18 samples apart but advertise 32: both monitored
+    statements are false -/
+theorem C15_stft_long_window_untruthful :
+    (stftAxes 50 0 (1 / 8192) (64 / 8192) (32 / 8192)).toOption.map
+        (fun a => (a.nperseg, a.noverlap, a.freq.coords.length)) = some (64, 32, 26) ∧
+    (stftAxes 50 0 (1 / 8192) (64 / 8192) (32 / 8192)).toOption.map
+        (fun a => (a.freq.step, a.freq.coords[1]?, axisOk 0 a.freq)) = some (128, some (4096 / 25), false) ∧
+    (stftAxes 50 0 (1 / 8192) (64 / 8192) (32 / 8192)).toOption.map
+        (fun a => (a.time.step, a.time.coords[1]?, axisOk 0 a.time)) =
+      some (1 / 256, some (9 / 4096), false) := by
+  refine ⟨?_, ?_, ?_⟩ <;> decide +kernel
+
 /-! ### further consequences, non-vacuity -/
 
 /-- the clip stays inside the requested interval at its end as well: the sample after the last
@@ -517,6 +685,17 @@ example : (stftAxes 32 0 (1 / 8) (1 / 2) (11 / 16)).toOption.map (fun a => (a.np
     some (4, -1, 5 / 8) := by decide +kernel
 example : stftAxes 32 0 (1 / 8) (1 / 16) (1 / 32) = .error .value := by decide +kernel   -- window < 1 sample
 example : stftAxes 32 0 (1 / 8) (17 / 16) (1 / 64) = .error .value := by decide +kernel  -- noverlap = nperseg
+-- the traced plans on the examples above (non-vacuity of the `…_factors` theorems and of `C15_clip_channels`)
+example : ∀ f ∈ demoFile, f.length = 2 := by decide
+example : (clipPlan 4 (5 / 8) (17 / 8)).toTuple = (2, 6, 1 / 2, 1 / 4, 6, 1 / 4) := by decide +kernel
+example : (recordingPlan 4 (3 / 2 + 1 / 10)).toTuple = (0, 1 / 4, 6, 1 / 4) := by decide +kernel
+example : (rangePlan (1 / 2) (1 / 2) (1 / 4)).toTuple = (1 / 2, 1 / 4, 0, 1 / 4) := by decide +kernel
+example : resamplePlanTuple 100 (1 / 8192) 1355 = (16, 1 / 1355) := by decide +kernel
+example : (stftPlan (1 / 8) (17 / 16) (13 / 32) 2).toTuple = (8, 8, 5, 1, 2, 3 / 8) := by decide +kernel
+-- a first stage that realises its advertised step exactly (96 samples at 48 kHz to 16 kHz: 32 points) can be
+-- resampled again truthfully
+example : (resampleAxis 32 0 (1 / 16000) (1 / 16000) 160000).toOption.map (fun a => (a.coords.length, axisOk 0 a)) =
+    some (320, true) := by decide +kernel
 
 
 end SE.Proofs.C15
